@@ -11,6 +11,11 @@ CHECKS = {
    note="Trusted: numpy indexing semantics and Python range slicing as oracles; bounds listed in evidence coverage.bounds.",
    ref="DESIGN.md section 4 C20"),
 }
+CHECKS["C07"] = dict(
+   technique="model-based testing: generated hub programs (exhaustive small + Hypothesis random) run against glue's Hub and an independent simulator; delivery logs compared",
+   text="Generated-schedule search with a reference model: every flat program up to the bound and thousands of random nested programs with re-entrant handler scripts are executed on the real hub and on a simulator written from the statement; any difference in who receives what, how often, in which order and nesting is a violation.",
+   note="Trusted: the simulator in pbt/props/c07.py as the reading of the statement; single-threaded (the hub is synchronous); handlers never raise; equal priorities are not generated.",
+   ref="DESIGN.md section 4 C07")
 NOT_APPLICABLE = []
 
 def main():
